@@ -70,7 +70,12 @@ def signature(ev, events):
         return "Return:%s%s:after=%s" % (ev["k"], ("[" + rel.get(ev["cid"], "?") + "]") if ev["k"] == "reply" else "",
                                          "+".join(before) or "nothing")
     if k == "Asked":
-        return "Asked:same=%s:ddl=%s:position-or-count" % (ev["same"], ev["ddl"])
+        after = any(e["ev"] == "Return" for e in events[:events.index(ev)]) if ev in events else False
+        if not ev["same"]:
+            return "Asked:query-bytes-differ:after-return=%s" % after
+        if not ev["ddl"]:
+            return "Asked:no-5s-deadline"
+        return "Asked:position-or-count:after-return=%s" % after
     if k == "Release":
         return "Release:%s:intact=%s" % (ev["o"], ev["intact"])
     if k == "End":
@@ -106,7 +111,8 @@ def replay(ctx):
     if d.get("kind") == "replay" and d.get("beh"):
         job = {"behaviours": [d["beh"]] * 5, "random": 0}
     else:
-        job = {"behaviours": [], "random": 400, "real_never": 2 if d.get("kind") == "never" else 0}
+        job = {"behaviours": [], "random": 400, "real_never": 2 if d.get("kind") == "never" else 0,
+               "early": 400 if str(d.get("kind")).startswith("early") else 0}
     recs, _ = vlib.run_driver(ctx, binary, stdin_obj=job)
     ctx.cov["evaluations"] = len(recs)
     judge(ctx, recs)
@@ -124,6 +130,8 @@ def run(ctx):
         "thorough tier: some runs wait for the worker's real 5 s timeout)",
         "helper goroutines ended = runtime.NumGoroutine() is back at its value before the call within 3 s (7 s with a silent upstream)",
         "the schedule point forward.collected only makes arrival orders reproducible; without it Collect is a silent step",
+        "pool.ReleaseBuf is wrapped by the harness to overwrite released buffers (0xA5): whatever an upstream is handed, "
+        "whenever its worker starts (also after the call returned), must be the packed query",
     ]
 
     # ---- leg A
@@ -165,9 +173,13 @@ def run(ctx):
     log("replaying %d of %d generated schedules" % (len(behs), n_all))
 
     binary = vlib.go_build(ctx, "drv_forward")
-    job = {"behaviours": behs, "random": 4000 if T else 400, "real_never": 14 if T else 0}
+    job = {"behaviours": behs, "random": 4000 if T else 400, "real_never": 14 if T else 0, "early": 3000 if T else 400}
     recs, _ = vlib.run_driver(ctx, binary, stdin_obj=job, timeout=1500)
-    want = len(behs) + job["random"] + job["real_never"]
+    want = len(behs) + job["random"] + job["real_never"] + job["early"]
+    ctx.cov["early_return_runs"] = sum(1 for r in recs if r["kind"].startswith("early"))
+    ctx.cov["exchanges_started_after_return"] = sum(
+        1 for r in recs for i, e in enumerate(r["events"])
+        if e["ev"] == "Asked" and any(x["ev"] == "Return" for x in r["events"][:i]))
 
     steered = [r for r in recs if r["kind"] == "replay" and r["steered"]]
     mism = [r for r in steered if r["expected"]["k"] != r["result"]["k"] or
